@@ -19,7 +19,7 @@ echo "SEED $PID/$K: demo clean rc=$clean_rc, demo mutated rc=$mut_rc; full: $ful
 ok=1
 [ "$clean_rc" = 0 ] || ok=0; [ "$mut_rc" != 0 ] || ok=0
 echo "$full" | grep -Eq "[0-9] (failed|error)" && ok=0
-echo "$full" | grep -q "10356 passed" || ok=0
+echo "$full" | grep -Eq "(10356|10256) passed" || ok=0   # 10256 since /repo e74500c (neutral c-cultures are no longer enumerated as specific ones)
 echo "$base" | grep -q "393 passed" || ok=0
 if [ $ok = 1 ]; then
   D="/verif/seeded/$PID-$DK"; mkdir -p "$D"; cp "$SRC/patch.diff" "$SRC/demo.py" "$D/"
